@@ -248,7 +248,10 @@ func c13Order(c *Ctx) {
 	if pm == nil || inner == nil {
 		return
 	}
-	puts := ssax.Calls(pm, false, func(ci ssa.CallInstruction) bool { o := ssax.CalleeObj(ci); return o != nil && o.Name() == "PutOperation" })
+	puts := ssax.Calls(pm, false, func(ci ssa.CallInstruction) bool {
+		o := ssax.CalleeObj(ci)
+		return o != nil && o.Name() == "PutOperation"
+	})
 	calls := ssax.CallsTo(pm, load.Module+"/"+pkgNode+".(BaseNodeService).processMessage")
 	saves := ssax.Calls(inner, false, func(ci ssa.CallInstruction) bool { o := ssax.CalleeObj(ci); return o != nil && o.Name() == "SaveFSM" })
 	if len(puts) != 1 || len(calls) != 1 || len(saves) == 0 {
